@@ -74,6 +74,22 @@ def step (s : St) : Op → St
 
 def run (s : St) (ops : List Op) : St := ops.foldl step s
 
+/-! `step` / `run` above are the *bookkeeping* of the two writers.  Since repo fix a8f41e9 both writers first call
+`_check_not_written(wheel, rel_path)`: a name already in `wheel.NameToInfo` raises RuntimeError.  The writers as they
+are: -/
+
+/-- `_add_file` / `_write_to_zip` with their guard -/
+def stepC (s : St) (o : Op) : PyM St :=
+  if (s.members.map (·.path)).contains o.target then .error .runtime else .ok (step s o)
+
+/-- a sequence of writer calls; stops at the first refused name -/
+def runC : St → List Op → PyM St
+  | s, [] => .ok s
+  | s, o :: os =>
+    match stepC s o with
+    | .ok s' => runC s' os
+    | .error e => .error e
+
 /-! ### RECORD text: `csv.writer(delimiter=",", quotechar='"', lineterminator="\n")`, QUOTE_MINIMAL -/
 
 def csvSpecial (c : Char) : Bool := c == ',' || c == '"' || c == '\n'
@@ -147,6 +163,11 @@ def recordText (distInfo : String) (records : List Rec) : String :=
 def writeRecord (H : String → String) (distInfo : String) (s : St) : St :=
   let text := recordText distInfo s.records
   step s (.writeToZip (recordPath distInfo) (H text) text.utf8ByteSize)
+
+/-- `_write_record` as it is: RECORD goes through the guarded `_write_to_zip` -/
+def writeRecordC (H : String → String) (distInfo : String) (s : St) : PyM St :=
+  let text := recordText distInfo s.records
+  stepC s (.writeToZip (recordPath distInfo) (H text) text.utf8ByteSize)
 
 /-- the decidable guard of `record_each_once`: no two operations target the same archive path and none
 targets RECORD -/
@@ -441,6 +462,12 @@ def diTargets (p : WheelPlan) : List String := p.diFiles.map (fun f => p.distInf
 def buildWheel (H : String → String) (p : WheelPlan) : St :=
   writeRecord H p.distInfo (run {} (wheelOps p))
 
+/-- `WheelBuilder.build` as it is: the guarded writers; a refused name aborts the build (RuntimeError) -/
+def buildWheelC (H : String → String) (p : WheelPlan) : PyM St :=
+  match runC {} (wheelOps p) with
+  | .ok s => writeRecordC H p.distInfo s
+  | .error e => .error e
+
 /-- what the archive says about one member, besides its bytes -/
 structure ZipEntry where
   member : Member
@@ -452,6 +479,15 @@ def describeWheel (H : String → String) (sde : Option String) (p : WheelPlan) 
   match zipfileDateTime sde with
   | .error e => .error e
   | .ok dt => .ok ((buildWheel H p).members.map fun m => ⟨m, dt⟩)
+
+/-- description of the wheel `build` really leaves behind: none when a writer refuses a name -/
+def describeWheelC (H : String → String) (sde : Option String) (p : WheelPlan) : PyM (List ZipEntry) :=
+  match zipfileDateTime sde with
+  | .error e => .error e
+  | .ok dt =>
+    match buildWheelC H p with
+    | .error e => .error e
+    | .ok s => .ok (s.members.map fun m => ⟨m, dt⟩)
 
 /-! ### sdist -/
 
